@@ -177,15 +177,15 @@ def nontrivial(case, out):
 
 
 PARTIAL = ('serializer totality, balanced indentation, buffer growth, Junk and comment emission are proved for ALL trees. Round trip AND fixed '
-           'point (both options) are proved for the parser output of EVERY layout of EVERY well-formed tree whose comments end in a non-blank '
-           'line (C04_roundtrip_wellformed_sources_partial). Not covered by the proof: parser outputs of sources that are not a layout of a '
+           'point (both options) are proved for the parser output of EVERY layout of EVERY well-formed tree that does not end in a stand-alone comment with an '
+           'empty last line (last_comment_ok; C04_roundtrip_wellformed_sources_partial). Not covered by the proof: parser outputs of sources that are not a layout of a '
            'well-formed tree (sources with errors/Junk, lone CRs) — decided there by the round-trip oracle on the implementation — and the '
            'shape of D7. The unrestricted statements are refuted on the current tree by D7 (theorems ..._refuted_by_D7).')
 
 MANIFEST = {
     'text': 'Rocq theorems about the Gallina transliteration of the serializer (SerializerModel.v): never panics and restores the indent '
             'level for ALL trees; Junk verbatim / skipped; comment line format; the exact canonical text; round trip and fixed point '
-            'PROVED for the parser output of every layout of every well-formed tree with comments_end_ok (any nesting of selects, '
+            'PROVED for the parser output of every layout of every well-formed tree with last_comment_ok (any nesting of selects, '
             'placeables and call arguments, multi-line values), composed with the parser model; every other parser output (sources '
             'with Junk) is checked by running parse/serialize/parse/serialize on the extracted model and on the real crate and '
             'comparing both trees and both texts.',
